@@ -208,6 +208,7 @@ ApiScope::ApiScope(const char *api, int obj, bool nonblocking) {
   R->trace_note = api;
   ev("invoke", (int64_t)strhash(api), obj);
 }
+static const char *api_label(Task *t);
 ApiScope::~ApiScope() {
   if (!t || !R || R->aborted) return;
   R->trace_note = t->api;
@@ -215,8 +216,12 @@ ApiScope::~ApiScope() {
   t->api_depth--;
   t->api = prev; t->api_nonblocking = prevnb; t->api_obj = prevobj;
   t->spin_addr = nullptr; t->spin_count = 0; t->spin_total = 0;
-  if (R->shared) snprintf(R->shared->cur_api, sizeof R->shared->cur_api, "%s", prev ? prev : "");
+  if (R->shared) snprintf(R->shared->cur_api, sizeof R->shared->cur_api, "%s", api_label(t));
 }
+
+// what a crash is attributed to: the bracketed call, or - in a thread the library created - the library's own start-up / exit code
+// around the user routine (thread proxy, TLS destructors), which runs outside every bracket
+static const char *api_label(Task *t) { return t->api ? t->api : (t->lib_thread ? "library thread start-up/exit" : ""); }
 
 // ------------------------------------------------------------------ fibers / scheduler
 static void fiber_entry();
@@ -232,7 +237,7 @@ static void do_switch(Task *from, Task *to) {
   // back here: we are 'from' again
   fiber_landed(from ? from->asan_fake : R->main_fake);
   if (from) errno = from->saved_errno;
-  if (from && R->shared) snprintf(R->shared->cur_api, sizeof R->shared->cur_api, "%s", from->api ? from->api : "");
+  if (from && R->shared) snprintf(R->shared->cur_api, sizeof R->shared->cur_api, "%s", api_label(from));
 }
 
 static void switch_to_main_abandon() {
@@ -244,7 +249,7 @@ static void fiber_entry() {
   fiber_landed(nullptr);
   Task *t = R->current;
   errno = 0;
-  if (R->shared) R->shared->cur_api[0] = 0;
+  if (R->shared) snprintf(R->shared->cur_api, sizeof R->shared->cur_api, "%s", api_label(t));
   t->started = true;
   t->entry();
   exit_task();
@@ -549,7 +554,41 @@ void shim_run_begin();
 void shim_run_end();
 namespace kern { void run_begin(); void run_end(); }
 
+// ---------------------------------------------------------------- library statics
+// The data sections of the library objects are renamed at build time (plib_data, plib_bss, plib_datarel), so that their extent
+// is known here. Before every run they are put back to what they were when the process started: a run is a function of its
+// seed alone, whatever static state the library (or a changed library: a cache, a once-flag) keeps across calls.
+extern "C" {
+extern char __start_plib_data[] __attribute__((weak)), __stop_plib_data[] __attribute__((weak));
+extern char __start_plib_bss[] __attribute__((weak)), __stop_plib_bss[] __attribute__((weak));
+extern char __start_plib_datarel[] __attribute__((weak)), __stop_plib_datarel[] __attribute__((weak));
+}
+#ifdef SIM_ASAN
+// the sections contain ASan's red zones between the globals: copied by a loop the sanitizer does not look at (they are small here)
+__attribute__((no_sanitize_address, noinline)) static void rawcopy(volatile char *d, const volatile char *s, size_t n) { for (size_t i = 0; i < n; i++) d[i] = s[i]; }
+#else
+static void rawcopy(char *d, const char *s, size_t n) { memcpy(d, s, n); }
+#endif
+static void restore_library_statics() {
+  struct Sec { char *b, *e; char *snap; };
+  static Sec secs[3] = {{__start_plib_data, __stop_plib_data, nullptr}, {__start_plib_bss, __stop_plib_bss, nullptr},
+#ifdef SIM_ASAN
+                        {nullptr, nullptr, nullptr}};       // flavour A: the relocated-data section also carries ASan's own global descriptors - left alone
+#else
+                        {__start_plib_datarel, __stop_plib_datarel, nullptr}};
+#endif
+  static bool have = false;
+  for (Sec &x : secs) {
+    if (!x.b || x.e <= x.b) continue;
+    size_t n = (size_t)(x.e - x.b);
+    if (!have) { x.snap = (char *)malloc(n); rawcopy(x.snap, x.b, n); }
+    else rawcopy(x.b, x.snap, n);
+  }
+  have = true;
+}
+
 void run_one(const HarnessDef *h, uint64_t seed, const Decisions *replay, bool trace, Shared *shared, Run *out) {
+  restore_library_statics();
   Run run;
   R = &run;
   run.h = h;
